@@ -17,6 +17,9 @@
 EXTENDS Naturals, FiniteSets, Sequences, TLC, Json
 
 CONSTANTS Engine, MaxRuns, MaxRetries, AllowFail,
+          RecordBeforeDone, \* TRUE: a failing node records its error on the run before it counts itself done (the v2
+                            \* engine; the v1 engine since fix F32). FALSE: the cleanup may read the run's result before
+                            \* the error is recorded and take a failed run for a gracefully stopped one
           SerializeStarts   \* TRUE: the recovery's internal Start never overlaps a user Start (what a per-pipeline
                             \* start lock would give). FALSE: as in the code - lifecycle.Service.Start has no
                             \* per-pipeline mutual exclusion, the two can interleave (open finding F13)
@@ -93,7 +96,9 @@ RunEnds(r) ==
   /\ Live(r) /\ (stopReq[r] \/ how[r] # "")
   /\ ~(call[1] = "start" /\ call[2] = r) /\ ~(rcall[1] = "start" /\ rcall[2] = r)     \* cleanup starts after start-up
   /\ phase' = [phase EXCEPT ![r] = "ended"]
-  /\ how' = [how EXCEPT ![r] = IF how[r] = "" THEN "graceful" ELSE how[r]]
+  \* what the cleanup goroutine reads as the run's result
+  /\ \/ how' = [how EXCEPT ![r] = IF how[r] = "" THEN "graceful" ELSE how[r]]
+     \/ ~RecordBeforeDone /\ how[r] # "" /\ how' = [how EXCEPT ![r] = "graceful"]
   /\ UNCHANGED <<rcall, memStatus, storeStatus, published, stopReq, nextRun, call, attempts, stopRefused, userStopped, script>>
 
 (* ---------------- cleanup goroutine of run r ---------------- *)
@@ -156,6 +161,8 @@ StopHitsLive == ~stopRefused
 NoOrphan == \A r \in Runs : (Live(r) /\ Idle /\ rcall = <<"idle">>) => published = r
 Quiet == Idle /\ rcall = <<"idle">> /\ \A r \in Runs : phase[r] \in {"new", "gone"}
 StatusAgrees == Quiet => storeStatus = memStatus
+\* (C10) a pipeline reported as stopped by the user was stopped by the user: a failure is never taken for a stop
+NoPhantomStop == (Quiet /\ memStatus = "UserStopped") => userStopped
 
 Terminal == Quiet /\ nextRun > 1
 EmitScript == Terminal => PrintT("SCRIPT " \o ToJson(script))
